@@ -377,12 +377,15 @@ impl FixedMethod {
                 } else {
                     self.buffer.push(character);
                 }
+                // Rest of the value, if the key emits more than the Kar.
+                self.buffer.push_str(&value[character.len_utf8()..]);
                 return;
             }
 
             // Hasanta
             if character == B_HASANTA && rmc == B_HASANTA {
                 self.buffer.push(ZWNJ);
+                self.buffer.push_str(&value[character.len_utf8()..]);
                 return;
             }
 
@@ -390,6 +393,7 @@ impl FixedMethod {
             if character == B_LENGTH_MARK && rmc == B_HASANTA {
                 self.buffer.pop();
                 self.buffer.push(B_OU);
+                self.buffer.push_str(&value[character.len_utf8()..]);
                 return;
             }
 
